@@ -210,6 +210,9 @@ def renamer_sequence(proto):
         seq.extend(o for o in n.output if o != "")
         seq.extend(i for i in n.input if i != "")
     seq.extend(o.name for o in proto.graph.output)
+    from harness import c13_variants
+    if c13_variants.detect()["sig_renamed"]:  # C13_01: the signature is renamed too, after the body and the return values
+        seq.extend(i.name for i in proto.graph.input)
     out, seen = [], set()
     for x in seq:
         if x not in seen:
@@ -224,6 +227,12 @@ def observe(case, rename):
     proto = case["proto"]
     if rename and isinstance(proto, onnx.ModelProto) and proto.graph.initializer:
         raise OutOfScope("rename=True on a model with initializers (the twice-renamed Constant needs the mapper's state)")
+    from harness import c13_variants
+    if c13_variants.detect()["unique_names"]:
+        from onnxscript.backend import onnx_export as E
+        names = G.all_names(proto)
+        if len({E._cleanup_variable_name(n) for n in names}) != len(set(names)):
+            raise OutOfScope("unique-name repair (C13_07) on a model whose names collide after clean-up: suffixes not modelled")
     code = onnxscript.proto2python(proto, rename=rename)
     lit, nst = parse_program(code)
     return {"func": lit, "code": code, "statements": nst}
@@ -236,8 +245,9 @@ def coq_terms(case, rename):
     raw_name = proto.graph.name if is_model else proto.name
     clean = "(cleanup kwlist)"
     if rename:
+        from harness import c13_variants
         ren = f"(short_map kwlist {clist(renamer_sequence(proto), cstr)})"
-        pre = clean if is_model else ren
+        pre = clean if (is_model and not c13_variants.detect()["sig_renamed"]) else ren
     else:
         ren = pre = clean
     return pre, ren, f"(cleanup kwlist {cstr(raw_name)})", ivals_lit(proto), graph_lit(proto)
